@@ -35,7 +35,7 @@ fn read_modes() -> Vec<(&'static str, ReadMode)> {
 pub fn cases(thorough: bool) -> Vec<Case> {
     let mut v = vec![];
     let cfgs: Vec<&str> = if thorough {
-        vec!["default", "lat0", "lat200", "tinywin", "win63", "sendwin2000", "gso1", "ackfreq", "mtu1452", "mtudoff", "cid0", "newreno", "pacing50k", "padmtu", "cidlife", "retry", "bbr", "streams1"]
+        vec!["default", "lat0", "lat200", "tinywin", "win63", "sendwin2000", "gso1", "ackfreq", "mtu1452", "mtudoff", "cid0", "newreno", "pacing50k", "padmtu", "cidlife", "retry", "bbr", "streams1", "nopace"]
     } else {
         vec!["default", "tinywin", "sendwin2000", "gso1", "ackfreq", "mtu1452", "lat0"]
     };
